@@ -631,6 +631,11 @@ func (h *Handler) servePromBaseQuery(w http.ResponseWriter, r *http.Request, use
 
 	// TODO support instant query
 	if h.Config.ResultCache.Enabled && promCommand.Evaluation == nil && !async && !isExplain {
+		// a cached answer is an answer: the caller must be allowed to read the database before the cache is consulted
+		// (the statement authorizer only runs in execQuery, on a cache miss)
+		if !h.requireRepositoryDataRead(rw, user, db, "query range") {
+			return
+		}
 		reqInfo := &RequestInfo{
 			h: h,
 			w: w,
